@@ -30,6 +30,11 @@ CHECKS = {
    technique="TLA+ specification of the SymbolFile::parse loop (SymStream.tla); TLC checks ChunkIndependent / OkMeansAll / CallbackPrefix over every input and every chunk schedule at small constants and at capacity ratio 16; enumerated schedules are scaled by 5120 and executed read-for-read on the real parser; seeded random chunkings of generated files; all event logs validated by TLC against SymStream!Iter at the real constants with the C10 monitors",
    text="TLC explores every way a reader may split every small input and proves, for the loop as specified, that the outcome equals the whole-buffer outcome for inputs with lines below MaxCap/2 and that the callback stream is the input prefix / the whole input on success. The specification is bound to the code in both directions: schedules chosen by TLC are run on the real parser, and real parses under seeded chunkings (whole, 1-byte trickle, random, around each buffer threshold, single split, line-by-line, tiny) are recorded; TLC validates each loop iteration and evaluates ChunkIndependent (vs. from_bytes of the same bytes, tables compared), OkMeansAll and CallbackPrefix (bytes compared) on every parse.",
    note="Trusted: as C09. The specification carries Repaired=TRUE, i.e. the loop after fix: commit e37a3d0 (the unterminated-tail defect was found by TLC and reproduced on the real code first). parse_async is the same loop text over reqwest chunks; it is exercised by C16's loopback server, not here."),
+ "C18": dict(
+   level="model_checking", design_ref="DESIGN.md section 5 'C18'",
+   technique="TLA+ state machine of register files with documented name/alias tables (Registers.tla, RegTables.tla) model-checked by TLC; complete replay of every state on the real CpuContext / MinidumpContext incl. raw-field ground truth",
+   text="The space is finite, so the check is complete within MaxSets writes: TLC enumerates every context type and every short history of set-by-name operations over all register names, documented aliases and unknown names, checks that aliases agree, the last write wins, sp/ip names are distinct registers and no slot is listed twice, and each state is executed on the real code: raw struct fields (ground truth), reads through every name and alias with and without validity, dedicated sp/ip accessors, memoization, singleton validity sets through aliases in both directions, unknown names under three validity forms (absence, no panic) and the two enumerations.",
+   note="Trusted: TLC, the hand-entered documented tables (tools/gen_registers_tla.py), raw_slot() in replay_registers.rs. Four open known findings (SPARC window aliases) are listed in known-findings.json."),
 }
 
 NA_DEFAULT = "check not built yet (work in progress; DESIGN.md section 5 has the planned specification)"
